@@ -11,6 +11,9 @@ static uint64_t ncases(Ctx& c) { return (uint64_t)c.param_int("uris", c.tier == 
 
 template <class X> void one(Ctx& c, UriBox<X>& b, const Str& origin) {
     typedef typename X::Char Char;
+    // C12: recomposition and the size query only read their argument -- everything reachable from it is compared afterwards
+    const Str snapBefore = deep_snapshot<X>(b.u);
+    struct ConstCheck { Ctx& c; UriBox<X>& b; const Str& snap; const Str& origin; ~ConstCheck() { if (deep_snapshot<X>(b.u) != snap) c.violation("C12", fmt("tostring/%s/const-argument-modified", X::tag()), origin); else c.count("argument_unchanged_after_recomposition"); } } constCheck{c, b, snapBefore, origin};
     // reference: full text via a generous buffer
     int need = -12345; int rc;
     { LibScope ls; rc = X::ToStringCharsRequired(&b.u, &need); }
